@@ -35,4 +35,18 @@ def cmdC16 (args : List String) : IO (List String) := do
   let strs := (results.zip (parsed.map (·.2))).map (fun (o, k) =>
     String.join ((List.range k).map o.value) ++ "@" ++ (match o.version with | some v => toString v | none => "n"))
   return [" ".intercalate strs]
+/-- cmd: c16route <P|N> <pc> <pf> <lc> <lf>   P = a non-empty `calibration_parameters` dictionary was given;
+pc / lc in {_, e, c} (custom set absent, empty, non-empty), pf / lf in {_, file id}
+ -> "<custom token> <file token>" as handed to the calibrator, and the request's file id and custom size -/
+def cmdC16route (args : List String) : IO (List String) := do
+  let cus (t : String) : Option (List (Nat × Unit)) := if t == "_" then none else if t == "e" then some [] else some [(0, ())]
+  let fil (t : String) : Option Nat := if t == "_" then none else some (parseNat! t)
+  match args with
+  | [flag, pc, pf, lc, lf] =>
+    let o := readerOpts (if flag == "P" then some ⟨cus pc, fil pf⟩ else none) (cus lc) (fil lf)
+    let r := readerReq 0 o
+    let ct := match o.custom with | none => "_" | some [] => "e" | some _ => "c"
+    let ft := match o.file with | none => "_" | some f => toString f
+    return [ct ++ " " ++ ft ++ " " ++ toString r.file ++ " " ++ toString r.custom.length]
+  | _ => return ["error bad-args"]
 end Driver
